@@ -145,6 +145,11 @@ def run_batch_property(prop, tier, seed):
                 extra_cov["front_end_rejected"] += 1
             else:
                 extra_cov["generator_failed"] += 1
+            if prop == "C13" and fl["spec"].get("group"):
+                # one member of an include / inlined pair is refused (or crashes the generator): not the same types and parsers
+                violations.append(dict(property="C13", kind="pair_compile", grammar_text=fl["text"], spec=fl["spec"], signature="pair:" + fl["stage"],
+                                       message="the %s grammar of an include/inlined pair is not compiled (%s: %s) " % (fl["spec"].get("role"), fl["stage"], fl["message"][:200]),
+                                       expected="both members compile to the same types", observed=fl["message"][:400]))
         with open(os.path.join(out, "gen_stats.json")) as f:
             gs = json.load(f)
         for k, v in gs["plan_stats"].get("rejected", {}).items():
